@@ -25,6 +25,9 @@ pub enum RaySpec {
     Axis { i: u16, horizontal: bool, back: i8, off: i8, len: i8 },
     /// nearly parallel to edge i (angle eps), starting near the edge
     NearParallel { i: u16, eps: f64, off: P2 },
+    /// crossing edge i at the fraction `along` of its length, at an angle eps (1e-10.5..1e-7) to it, with a direction of
+    /// length dlen whatever the length of the edge: one input mixing very different magnitudes when the edge is long
+    NearParallelLong { i: u16, eps: f64, along: f64, dlen: f64, back: f64 },
 }
 
 #[derive(Clone, Debug, Serialize, Deserialize)]
@@ -33,6 +36,13 @@ pub struct Case {
     pub pts: Vec<P2>,
     pub closed: bool,
     pub rays: Vec<RaySpec>,
+    /// float regime: every x coordinate multiplied by this (long, nearly horizontal edges among short ones)
+    #[serde(default = "one")]
+    pub xstretch: f64,
+}
+
+fn one() -> f64 {
+    1.0
 }
 
 fn lattice_poly(nmax: usize) -> BoxedStrategy<Vec<P2>> {
@@ -72,6 +82,7 @@ fn ray_spec(lattice: bool) -> BoxedStrategy<RaySpec> {
             1 => (any::<u16>(), any::<u16>(), -2i8..=2).prop_map(|(i, j, k)| RaySpec::ThroughTwo { i, j, k }),
             1 => (any::<u16>(), any::<bool>(), -8i8..=8, -2i8..=2, prop::sample::select(vec![-2i8, -1, 1, 2, 3])).prop_map(|(i, horizontal, back, off, len)| RaySpec::Axis { i, horizontal, back, off, len }),
             2 => (any::<u16>(), logu(-9.0, -3.0), p2(0.05)).prop_map(|(i, eps, off)| RaySpec::NearParallel { i, eps, off }),
+            1 => (any::<u16>(), logu(-10.5, -7.0), unif(0.2, 0.8), logu(-0.5, 0.5), unif(0.05, 0.4)).prop_map(|(i, eps, along, dlen, back)| RaySpec::NearParallelLong { i, eps, along, dlen, back }),
         ]
         .boxed()
     }
@@ -81,18 +92,18 @@ impl Property for C06 {
     type Case = Case;
     const ID: &'static str = "C06";
     fn rule() -> &'static str {
-        "a case is a polyline (5-400 edges quick, up to 5000 thorough; lattice regime: integer / dyadic coordinates, exactly representable; float regime: 7 shapes incl. flat axis-aligned runs, long-thin, spirals) with 8-40 rays (generic; through one vertex; through two vertices / along an edge's supporting line; axis-parallel with a zero direction component; nearly parallel to an edge at 1e-9..1e-3 rad; origins inside, outside, behind). Oracle: per-edge 2x2 solve written in the harness. Non-trivial: at least one robust hit on an edge with index >= 4 of a polyline with >= 16 edges. Distinct = distinct canonical JSON."
+        "a case is a polyline (5-400 edges quick, up to 5000 thorough; lattice regime: integer / dyadic coordinates, exactly representable; float regime: 7 shapes incl. flat axis-aligned runs, long-thin, spirals) with 8-40 rays (generic; through one vertex; through two vertices / along an edge's supporting line; axis-parallel with a zero direction component; nearly parallel to an edge at 1e-9..1e-3 rad, and at 1e-10.5..1e-7 rad with a direction of fixed length crossing the edge well inside it (a fifth of the float polylines are stretched 1e2..3e3 times along x, so such edges are long); origins inside, outside, behind). Oracle: per-edge 2x2 solve written in the harness. Non-trivial: at least one robust hit on an edge with index >= 4 of a polyline with >= 16 edges. Distinct = distinct canonical JSON."
     }
     fn cases(t: Tier) -> u32 {
         t.pick(240_000, 2_000_000)
     }
     fn expected_labels() -> Vec<&'static str> {
-        vec!["lattice", "float", "closed", "negative_t_hit", "zero_dir_component", "through_vertex", "near_parallel", "spanning_some", "spanning_none", "boundary_hit_exact", "many_edges", "no_hits"]
+        vec!["lattice", "float", "closed", "negative_t_hit", "zero_dir_component", "through_vertex", "near_parallel", "spanning_some", "spanning_none", "boundary_hit_exact", "many_edges", "no_hits", "near_parallel_fixed_length_direction", "stretched_along_x"]
     }
     fn strategy(t: Tier) -> BoxedStrategy<Case> {
         let nmax = t.pick(400, 5000);
-        let lat = (lattice_poly(nmax.min(600)), any::<bool>(), prop::collection::vec(ray_spec(true), 8..40)).prop_map(|(pts, closed, rays)| Case { lattice: true, pts, closed, rays });
-        let flt = (prop_oneof![6 => polyline2(6, 120, 1.0), 1 => polyline2(120, nmax, 1.0)], any::<bool>(), prop::collection::vec(ray_spec(false), 8..40)).prop_map(|((_, pts), closed, rays)| Case { lattice: false, pts, closed, rays });
+        let lat = (lattice_poly(nmax.min(600)), any::<bool>(), prop::collection::vec(ray_spec(true), 8..40)).prop_map(|(pts, closed, rays)| Case { lattice: true, pts, closed, rays, xstretch: 1.0 });
+        let flt = (prop_oneof![6 => polyline2(6, 120, 1.0), 1 => polyline2(120, nmax, 1.0)], any::<bool>(), prop::collection::vec(ray_spec(false), 8..40), prop_oneof![4 => Just(1.0), 1 => logu(2.0, 3.5)]).prop_map(|((_, pts), closed, rays, xstretch)| Case { lattice: false, pts, closed, rays, xstretch });
         prop_oneof![lat, flt].boxed()
     }
     fn check(case: &Case) -> Verdict {
@@ -127,6 +138,18 @@ fn build_ray(spec: &RaySpec, v: &[Point2], unit: f64) -> Option<(Point2, Vector2
                 (Point2::new(p.x + *off as f64 * u, p.y - *back as f64 * u), Vector2::new(0.0, *len as f64 * u))
             }
         }
+        RaySpec::NearParallelLong { i, eps, along, dlen, back } => {
+            let k = idx(*i, n - 1);
+            let e = v[k + 1] - v[k];
+            let en = e.norm();
+            if en < 1e-9 {
+                return None;
+            }
+            let (s, c) = eps.sin_cos();
+            let u = Vector2::new(e.x * c - e.y * s, e.x * s + e.y * c) / en;
+            let p = v[k] + e * *along;
+            (p - u * (*back * en), u * *dlen)
+        }
         RaySpec::NearParallel { i, eps, off } => {
             let k = idx(*i, n - 1);
             let e = v[k + 1] - v[k];
@@ -152,6 +175,12 @@ fn check(case: &Case) -> Verdict {
     let mut cx = Ctx::new();
     cx.label(if case.lattice { "lattice" } else { "float" });
     let mut pts = crate::oracle::to_p2(&case.pts);
+    if !case.lattice && case.xstretch != 1.0 {
+        for p in pts.iter_mut() {
+            p.x *= case.xstretch;
+        }
+        cx.label("stretched_along_x");
+    }
     pts.dedup_by(|a, b| (*a - *b).norm() <= 1e-7);
     if pts.len() < 6 {
         return Verdict::Discard("too few vertices");
@@ -193,6 +222,8 @@ fn check(case: &Case) -> Verdict {
         cx.label_if(d.x == 0.0 || d.y == 0.0, "zero_dir_component");
         cx.label_if(matches!(spec, RaySpec::ThroughVertex { .. } | RaySpec::ThroughTwo { .. }), "through_vertex");
         cx.label_if(matches!(spec, RaySpec::NearParallel { .. }), "near_parallel");
+        let long = matches!(spec, RaySpec::NearParallelLong { .. });
+        cx.label_if(long, "near_parallel_fixed_length_direction");
         let ray = Ray::new(o, d);
         let got = match guarded(|| curve.ray_intersections(&ray)) {
             Ok(g) => g,
@@ -210,7 +241,9 @@ fn check(case: &Case) -> Verdict {
             let w = v[i] - o;
             let en = e.norm();
             let sin = det.abs() / (dn * en);
-            if sin < 1e-9 || det.abs() < 1e-11 {
+            // (for the fixed-length near-parallel family the crossing is constructed well inside the edge, so the decision is
+            // safe down to 1e-11 as long as the determinant is a hundred times the library's threshold)
+            if (!long && (sin < 1e-9 || det.abs() < 1e-11)) || (long && (sin < 1e-11 || det.abs() < 1e-10)) {
                 // (nearly) parallel: the library's own threshold is an absolute 1e-12 on the determinant
                 classes[i] = Class::DontCare;
                 let _ = w;
@@ -223,7 +256,7 @@ fn check(case: &Case) -> Verdict {
             us[i] = u;
             let k = (1e-7 / sin).max(1.0);
             kk[i] = k;
-            let band = delta * k;
+            let band = if long { (100.0 * delta * k).min(0.15) } else { delta * k };
             classes[i] = if u >= band && u <= 1.0 - band {
                 Class::Required
             } else if u >= -band && u <= 1.0 + band {
